@@ -277,10 +277,18 @@ impl<Mod: Modulation, Dec: DecoderFactory> BerTest<Mod, Dec> {
             })
             .take(self.num_workers)
             .collect::<Vec<_>>();
+            // Only the workers hold senders from now on, so that recv() fails
+            // instead of blocking forever if all the workers have died.
+            drop(results_tx);
 
             let mut current_statistics = CurrentStatistics::new(self.bch_max_errors > 0);
             while current_statistics.errors_for_termination() < self.max_frame_errors {
-                match results_rx.recv().unwrap() {
+                let Ok(result) = results_rx.recv() else {
+                    // All the workers have terminated abnormally (panicked).
+                    // The error is collected when joining them below.
+                    break;
+                };
+                match result {
                     Ok(result) => {
                         current_statistics.ldpc.bit_errors += result.bit_errors;
                         current_statistics.ldpc.frame_errors += u64::from(result.frame_error);
@@ -313,10 +321,12 @@ impl<Mod: Modulation, Dec: DecoderFactory> BerTest<Mod, Dec> {
                 let _ = terminate_tx.send(());
             }
 
-            let mut join_error = None;
+            let mut join_error: Option<Box<dyn std::error::Error>> = None;
             for (handle, _) in workers.into_iter() {
-                if let Err(e) = handle.join().unwrap() {
-                    join_error = Some(e);
+                match handle.join() {
+                    Ok(Ok(())) => (),
+                    Ok(Err(e)) => join_error = Some(e),
+                    Err(_) => join_error = Some("BER test worker thread panicked".into()),
                 }
             }
             if let Some(e) = join_error {
